@@ -106,4 +106,20 @@ def wordAttrs (w : PWord) : List AttrChar := w.expand.map PAttrChar.reduce
 /-- case.rs `matches` / trim.rs `apply`: `to_pattern_chars(&{ apply_escapes(&mut pattern); pattern })` -/
 def patternOfWord (w : PWord) : List PatternChar := toPatternChars (applyEscapes (wordAttrs w))
 
+/-! ### `apply_escapes` as the index loop it is in attr_fnmatch.rs (`applyEscapes` of Model.lean is the equivalent
+    recursion: `applyEscapesIdx_eq`, WordLemmas.lean) -/
+
+/-- one iteration of the loop of `apply_escapes` (`for j in 1..chars.len()`, `let i = j - 1`) on the slice as a list -/
+def escStep (cs : List AttrChar) (j : Nat) : List AttrChar :=
+  match cs[j - 1]?, cs[j]? with
+  | some a, some b =>
+    if a.value = '\\' ∧ a.isQuoting = false ∧ a.isQuoted = false then
+      (cs.set (j - 1) { a with isQuoting := true }).set j { b with isQuoted := true }
+    else cs
+  | _, _ => cs
+
+/-- `apply_escapes` as the index loop the Rust code is -/
+def applyEscapesIdx (cs : List AttrChar) : List AttrChar :=
+  (List.range' 1 (cs.length - 1)).foldl escStep cs
+
 end YashModel.Fnmatch
